@@ -24,7 +24,8 @@ where
     )
 }
 
-fn left_paren() -> impl Parser<StringView, Output = Token, Error = ParserError> {
+/// The opening parenthesis.
+pub fn left_paren() -> impl Parser<StringView, Output = Token, Error = ParserError> {
     any_symbol_of!('(')
 }
 
